@@ -458,6 +458,7 @@ func ruleRegexLongest(c *Ctx) {
 }
 
 func ruleResolveOwner(c *Ctx) {
+	lookupOrder(c)
 	_, st := c.structType("internal/resolver", "resolver")
 	if st == nil {
 		c.undecided("anchor:resolver", token.NoPos, "type resolver.resolver not found")
